@@ -350,16 +350,21 @@ impl<'a> Ref<'a> {
         }
     }
 
-    pub fn stale_kind(&self, lane: u8) -> Option<&'static str> {
+    /// Is `rec` the entry record of the stale event a map lane still holds?
+    pub fn stale_matches(&self, rec: &Rec) -> bool {
+        let lane = match rec {
+            Rec::OnUpdate { lane, .. } | Rec::OnRemove { lane, .. } | Rec::OnClear { lane, .. } => *lane,
+            _ => return false,
+        };
         if is_value(lane) {
-            return None;
+            return false;
         }
-        self.model.stale[(lane / 2) as usize].as_ref().map(|c| match c {
-            Casc::Value { .. } => "OnEvent",
-            Casc::Update { .. } => "OnUpdate",
-            Casc::Remove { .. } => "OnRemove",
-            Casc::Clear { .. } => "OnClear",
-        })
+        match (&self.model.stale[(lane / 2) as usize], rec) {
+            (Some(Casc::Update { k, prev, .. }), Rec::OnUpdate { k: k2, prev: p2, .. }) => k == k2 && prev == p2,
+            (Some(Casc::Remove { k, prev, .. }), Rec::OnRemove { k: k2, prev: p2, .. }) => k == k2 && prev == p2,
+            (Some(Casc::Clear { prev, .. }), Rec::OnClear { prev: p2, .. }) => prev == p2,
+            _ => false,
+        }
     }
 
     /// A primitive mutation. `tp`: this step completes the operand of an enclosing `and_then*` /
@@ -861,9 +866,7 @@ pub fn verify(t: &Tables, trace: &[Rec], sent: &[Cmd], outcome: &Outcome) -> Rep
         // (implementation mirror) a map handler at top level that no command explains may be the stale event of
         // a dropped modification, consumed by a remote's removal of an absent key
         let trig = match &trig {
-            Trigger::Ext(cmd @ (Cmd::Upd { lane, .. } | Cmd::Rem { lane, .. } | Cmd::Clr { lane }))
-                if avail.get(cmd).copied().unwrap_or(0) == 0 && r.stale_kind(*lane) == Some(first.kind()) =>
-            {
+            Trigger::Ext(Cmd::Upd { lane, .. } | Cmd::Rem { lane, .. } | Cmd::Clr { lane }) if r.stale_matches(first) => {
                 let lane = *lane;
                 let absent = avail.iter().find_map(|(c, n)| match c {
                     Cmd::Rem { lane: l, k } if *l == lane && *n > 0 && !r.model.m[(lane / 2) as usize].contains_key(k) => Some(c.clone()),
